@@ -113,15 +113,51 @@ def _is_container_init(v):
     return False
 
 
-def check_hidden_state(ctx, rep, modules=PURE_MODULES):
+def reachable_functions(ctx, roots):
+    """top-level functions reachable from the roots through resolved calls (including nested helpers)"""
+    seen = {}
+    work = list(roots)
+    while work:
+        f = work.pop()
+        top = f
+        while top.parent is not None:
+            top = top.parent
+        if top.qualname in seen:
+            continue
+        seen[top.qualname] = top
+        units = [top]
+        stack = [top]
+        while stack:
+            g = stack.pop()
+            for nf in g.nested.values():
+                units.append(nf)
+                stack.append(nf)
+        for g in units:
+            for c in ctx.prog.calls_in(g):
+                r = ctx.resolve_call(g, c)
+                if r is not None and r.kind == 'func':
+                    work.append(r.target)
+                elif r is not None and r.kind == 'class':
+                    init = ctx.prog.find_method(r.target, '__init__')
+                    if init is not None:
+                        work.append(init)
+    return seen
+
+
+def check_hidden_state(ctx, rep, modules=PURE_MODULES, roots=None):
     """(c) inventory of module-level objects / default-argument objects written by library functions; a cross-call
-    memo (container written by one call and read by a later call of a value-returning operation) is a violation"""
+    memo (container written by one call and read by a later call of a value-returning operation) is a violation.
+    With ``roots`` only functions reachable from them through the call graph are considered."""
     eff = ctx.effects
     inventory = []
+    scope = reachable_functions(ctx, roots) if roots is not None else None
     for q, s in sorted(eff.summaries.items()):
         f = ctx.prog.functions[q]
         base = f.module.base[:-3]
-        if base not in modules:
+        if scope is not None:
+            if q not in scope:
+                continue
+        elif base not in modules:
             continue
         # memoising decorators
         for d in f.node.decorator_list:
@@ -163,7 +199,7 @@ def check_hidden_state(ctx, rep, modules=PURE_MODULES):
                 inventory.append('{}: default-argument object {} = {} is mutated across calls (name generator)'.format(f.short, p.arg, u(d)))
                 rep.holds(RULE + '.c', f, 'parameter {} = {}'.format(p.arg, u(d)), 'shared default generator inventoried; freshness of its names is decided by R-FRESH', nontrivial=False)
     # module-level containers in pure modules that some function writes through a name (not via effects): safety net
-    for base in modules:
+    for base in (modules if scope is None else sorted({f.module.base[:-3] for f in scope.values()})):
         try:
             m = ctx.prog.module(base)
         except Exception:
@@ -173,6 +209,12 @@ def check_hidden_state(ctx, rep, modules=PURE_MODULES):
                 continue
             writers = []
             for f in ctx.prog.funcs_of(base):
+                if scope is not None:
+                    top = f
+                    while top.parent is not None:
+                        top = top.parent
+                    if top.qualname not in scope:
+                        continue
                 for n in walk_no_nested(f.node):
                     if isinstance(n, ast.Subscript) and isinstance(n.ctx, ast.Store) and u(n.value) == gname and gname not in f.params:
                         writers.append((f, n))
